@@ -139,6 +139,9 @@ def plan(tier, seed):
         jobs.append({'space': 'R', 'shard': i, 'of': 16, 'tier': tier,
                      'weight': 2000})
     jobs.append({'space': 'EQ', 'tier': tier, 'weight': 100})
+    for d in range(1, 10 if tier == 'quick' else 13):
+        jobs.append({'space': 'DEEP', 'depth': d, 'tier': tier,
+                     'weight': 30 * 2 ** d})
     return jobs
 
 
@@ -423,6 +426,29 @@ def run_R(cx, job):
                             str(rules), 'R')
                         break
     cx.acc.sample('R', src)
+
+
+def run_DEEP(cx, job):
+    """Parenthesised groups nested `depth` deep (the sentence enumeration
+    stops at 9-12 tokens, i.e. 2-3 levels): right-nested with alternating
+    operators, the same under `not`, and left-nested.  The printer adds a
+    pair of parentheses of its own, so the printed text nests one deeper."""
+    d = job['depth']
+    leaves = ['role:r%d' % i for i in range(d + 2)]
+    kinds = ('role',) * (d + 2)
+    ops = ['or', 'and']
+    right = leaves[d] + ' and ' + leaves[d + 1]
+    for i in range(d - 1, -1, -1):
+        right = '%s %s (%s)' % (leaves[i], ops[i % 2], right)
+    neg = leaves[d] + ' or ' + leaves[d + 1]
+    for i in range(d - 1, -1, -1):
+        neg = '%s %s not (%s)' % (leaves[i], ops[(i + 1) % 2], neg)
+    left = leaves[0] + ' or ' + leaves[1]
+    for i in range(2, d + 2):
+        left = '(%s) %s %s' % (left, ops[i % 2], leaves[i])
+    for text in (right, neg, left, '(' * d + right + ')' * d):
+        cx.roundtrip('DEEP', text, kinds, True)
+    cx.acc.sample('DEEP', right)
 
 
 def run_EQ(cx, job):
